@@ -66,7 +66,10 @@ class System:
         self.root = root
         F = root["F"]
         self.freq = A.GRIDS[root["grid"]](F)
-        self.curves = A.curve_set(root["shapes"], F)
+        self.curves = A.curve_set(root["shapes"], F, root.get("scale_step", 0.125))
+        # windows that differ by parts per million: the spread is a small difference of large numbers, so the
+        # reference is compared at a tolerance that allows for the conditioning (mean/std ~ 1e6) of that case
+        self.rtol = root.get("rtol", RTOL)
         self.W = len(self.curves)
         ops = []
         for r in range_menu(self.freq):
@@ -105,7 +108,11 @@ class System:
         o = h.obj
         try:
             if op["op"] == "U":
-                o.update_peaks_bounded(search_range_in_hz=tuple(op["rng"]), find_peaks_kwargs=op["kw"])
+                kw = None if op["kw"] is None else dict(op["kw"])
+                try:
+                    o.update_peaks_bounded(search_range_in_hz=tuple(op["rng"]), find_peaks_kwargs=kw)
+                finally:
+                    _reuse_dict(kw)
                 h.rng, h.kw = tuple(op["rng"]), op["kw"]
             elif op["op"] == "F":
                 h.rng, h.kw = tuple(op["rng"]), None
@@ -155,6 +162,10 @@ class System:
         for d in ("lognormal", "normal"):
             for name, args in ACCESSORS:
                 obs.append(_nonan(_call(o, name, args, d)))
+        for name in ("peak_frequencies", "peak_amplitudes"):
+            raw = getattr(o, name)
+            obs.append(_nonan(tuple(np.asarray(raw, dtype=float).tolist())))
+            _scribble(raw)
         return tuple(obs)
 
     # ---- invariant ---------------------------------------------------------
@@ -223,7 +234,7 @@ class System:
                                   expected=exp[label], observed=got,
                                   explanation=f"{label}({d!r}) raised with >= 2 accepted windows")
                     continue
-                if not close(got, exp[label], rtol=RTOL, atol=1e-12):
+                if not close(got, exp[label], rtol=self.rtol, atol=1e-12):
                     ctx.violation(f"C05:{name}:{d}:{cls}:ref", root,
                                   detail=dict(hist=list(hist), accessor=label, distribution=d,
                                               valid_window=vw.tolist(), valid_peak=vp.tolist()),
@@ -337,10 +348,27 @@ def _call(o, name, args, d):
         return ("raised", type(e).__name__)
     if isinstance(v, tuple):
         return tuple(float(x) for x in v)
+    raw = v
     v = np.asarray(v, dtype=float)
     if v.ndim == 0:
         return float(v)
-    return tuple(map(tuple, v.tolist())) if v.ndim == 2 else tuple(v.tolist())
+    out = tuple(map(tuple, v.tolist())) if v.ndim == 2 else tuple(v.tolist())
+    _scribble(raw)
+    return out
+
+
+def _reuse_dict(kw):
+    """The caller owns the options dict it passed and re-uses it for something else after the call."""
+    if isinstance(kw, dict):
+        kw.clear()
+        kw["width"] = 7
+
+
+def _scribble(raw):
+    """The caller owns what an accessor returned: overwrite it in place (as ``a /= a.max()`` or
+    ``np.reciprocal(p, out=p)`` would) so that a later answer computed from shared storage is wrong."""
+    if isinstance(raw, np.ndarray) and raw.flags.writeable and raw.dtype.kind == "f":
+        raw.fill(-7.25)
 
 
 def _nonan(v):
@@ -359,6 +387,11 @@ def _same(a, b):
     return close(a, b, rtol=1e-12, atol=0.0)
 
 
+# very repeatable windows: the same shape scaled by 1 + w * 2**-19 (1.9 ppm steps)
+NEAR_ROOTS = [dict(grid="lin", F=7, shapes=["p3"] * 4, depth=1, scale_step=2.0 ** -19, rtol=1e-6),
+              dict(grid="geo", F=7, shapes=["twopk"] * 3, depth=1, scale_step=2.0 ** -19, rtol=1e-6)]
+
+
 def roots(tier, seed):
     if tier == "quick":
         sets = [["p2", "p4", "twopk", "p3"], ["p1", "p5", "p3", "q3"], ["p2", "p2", "p4", "up"],
@@ -372,6 +405,7 @@ def roots(tier, seed):
         out += [dict(grid="lin", F=7, shapes=s, depth=2, touch=True, reaccept=True) for s in (sets[0], sets[10])]
         # a window with exactly zero amplitude at some frequencies: once rejected it must not matter
         out.append(dict(grid="lin", F=7, shapes=["p3", "dead", "p4", "p2"], depth=2, reaccept=True))
+        out += NEAR_ROOTS
         return out
     out = []
     for r in A.curve_set_roots([3], 7, A.REDUCED_SHAPES + ["steep_up"], grids=("lin",)):
@@ -380,6 +414,7 @@ def roots(tier, seed):
         out.append(dict(depth=2, **r))
     out.append(dict(grid="lin", F=7, shapes=["p3", "dead", "p4", "p2"], depth=2, reaccept=True))
     out.append(dict(grid="lin", F=7, shapes=["dead", "p3", "p4"], depth=3, reaccept=True))
+    out += NEAR_ROOTS
     for s in (["p2", "p4", "twopk", "p3"], ["p2", "p3", "p5"], ["p1", "q3", "tie"], ["p2", "steep_up", "p2"]):
         out.append(dict(grid="lin", F=7, shapes=s, depth=3 if len(s) == 3 else 2, touch=True, reaccept=True))
     for s in (["p1", "p2", "p3", "p4", "p5"], ["p2", "twopk", "up", "p4", "q3"],
@@ -402,7 +437,10 @@ def describe(tier):
              "histories of {12 range updates, 24 frequency-domain rejections, W manual rejections, all "
              "maximum-value rejections leaving >=2 windows} up to the root's depth; states deduplicated on "
              "(masks, range, per-window peaks); a case is non-trivial/distinct by (grid, shapes); judged in "
-             "every state with >= 2 accepted windows",
+             "every state with >= 2 accepted windows; 'near' roots hold one shape scaled by 1 + w*2^-19 (windows that differ "
+             "by parts per million, reference compared at rtol 1e-6); the harness is a caller that owns what crosses the "
+             "API: every array an accessor returns is overwritten in place and every options dict passed is cleared and "
+             "refilled before the state is judged",
         bounds=dict(depth="2 quick; 3 for W=3 and 2 for W>=4 thorough"),
         exhaustive=True,
         assumptions=["per-window peaks are taken from fresh HvsrCurve objects (C08 judges those)",
